@@ -129,13 +129,36 @@ fn make_pool(rng: &mut Rng, ctx: &mut Ctx) -> Vec<Entry> {
     pool
 }
 
+/// index >= GEN_BASE in a history stands for a call of the other public build entry point,
+/// `build_generated_message(number, seed)` (test_gen feature), on the same builder
+const GEN_BASE: usize = 1 << 40;
+
+fn gen_op(number: u16, seed: u32) -> usize {
+    GEN_BASE + ((number as usize) << 32) + seed as usize
+}
+
+fn run_generated(b: &mut MessageBuilder, op: usize) -> Option<usize> {
+    let number = ((op - GEN_BASE) >> 32) as u16;
+    let seed = (op & 0xFFFF_FFFF) as u64;
+    let mut vg = rtcm_rs::val_gen::ValGen::new(
+        crate::rng::Stream::Random(Rng::new(seed)),
+        crate::rng::Stream::Random(Rng::new(seed ^ 0x55)),
+        crate::rng::Stream::Random(Rng::new(seed ^ 0xAA)),
+    );
+    b.build_generated_message(&mut vg, number).ok().map(|f| f.len())
+}
+
 fn run_history(ctx: &mut Ctx, pool: &[Entry], hist: &[usize], target: usize) {
     ctx.eval();
     let t = &pool[target];
     let r = guard(|| {
         let mut b = MessageBuilder::new();
         for &i in hist {
-            let _ = b.build_message(&pool[i].msg).map(|x| x.len());
+            if i >= GEN_BASE {
+                let _ = run_generated(&mut b, i);
+            } else {
+                let _ = b.build_message(&pool[i].msg).map(|x| x.len());
+            }
         }
         match b.build_message(&t.msg) {
             Ok(f) => Ok(f.to_vec()),
@@ -154,6 +177,10 @@ fn run_history(ctx: &mut Ctx, pool: &[Entry], hist: &[usize], target: usize) {
     let mut nontrivial = false;
     let mut residue_would_show = false;
     for &i in hist {
+        if i >= GEN_BASE {
+            nontrivial = true;
+            continue;
+        }
         match &pool[i].fresh {
             Ok(f) => {
                 if f.len() > tlen {
@@ -181,7 +208,10 @@ fn run_history(ctx: &mut Ctx, pool: &[Entry], hist: &[usize], target: usize) {
     if residue_would_show {
         ctx.count("histories_where_stale_bits_would_be_visible");
     }
-    if hist.iter().any(|&i| pool[i].fresh.is_err()) {
+    if hist.iter().any(|&i| i >= GEN_BASE) {
+        ctx.count("histories_with_build_generated_message_calls");
+    }
+    if hist.iter().any(|&i| i < GEN_BASE && pool[i].fresh.is_err()) {
         ctx.count("histories_with_failed_predecessor");
     }
     if got != t.fresh {
@@ -193,7 +223,7 @@ fn run_history(ctx: &mut Ctx, pool: &[Entry], hist: &[usize], target: usize) {
         };
         let fresh = &t.fresh;
         ctx.violation_lazy(format!("C12.history_independent|{}", what), "C12.history_independent", || {
-            let labels: Vec<&str> = hist.iter().map(|&i| pool[i].label).collect();
+            let labels: Vec<&str> = hist.iter().map(|&i| if i >= GEN_BASE { "build_generated_message" } else { pool[i].label }).collect();
             (
                 format!(
                     "after {} earlier builds ({:?}...), message {:?} builds to {} but a fresh builder gives {}",
@@ -203,12 +233,12 @@ fn run_history(ctx: &mut Ctx, pool: &[Entry], hist: &[usize], target: usize) {
                     got.as_ref().map(|f| hex_short(f)).unwrap_or_else(|e| e.clone()),
                     fresh.as_ref().map(|f| hex_short(f)).unwrap_or_else(|e| e.clone())
                 ),
-                json!({"kind":"history","messages": hist.iter().chain(std::iter::once(&target)).map(|&i| vtree::to_v(&pool[i].msg).map(|v| vtree::v_to_json(&v)).unwrap_or(Value::Null)).collect::<Vec<_>>()}),
+                json!({"kind":"history","messages": hist.iter().chain(std::iter::once(&target)).map(|&i| if i >= GEN_BASE { json!({"generated": [((i - GEN_BASE) >> 32) as u64, (i & 0xFFFF_FFFF) as u64]}) } else { vtree::to_v(&pool[i].msg).map(|v| vtree::v_to_json(&v)).unwrap_or(Value::Null) }).collect::<Vec<_>>()}),
             )
         });
     }
     if ctx.want_sample() && hist.len() >= 2 && nontrivial && ctx.evaluations % 401 == 0 {
-        ctx.sample(|| json!({"history": hist.iter().map(|&i| format!("{}:{:?}:{}", pool[i].label, pool[i].msg.number(), pool[i].fresh.as_ref().map(|f| f.len().to_string()).unwrap_or_else(|e| e.clone()))).collect::<Vec<_>>(), "target": format!("{:?} -> {} bytes", t.msg.number(), tlen)}));
+        ctx.sample(|| json!({"history": hist.iter().map(|&i| if i >= GEN_BASE { format!("build_generated_message:{}", (i - GEN_BASE) >> 32) } else { format!("{}:{:?}:{}", pool[i].label, pool[i].msg.number(), pool[i].fresh.as_ref().map(|f| f.len().to_string()).unwrap_or_else(|e| e.clone())) }).collect::<Vec<_>>(), "target": format!("{:?} -> {} bytes", t.msg.number(), tlen)}));
     }
 }
 
@@ -233,10 +263,11 @@ pub fn run(p: &Params) -> Outcome {
                 2 => rng.range(3, 8) as usize,
                 _ => rng.range(1, 50) as usize,
             };
-            let mut hist: Vec<usize> = (0..len).map(|_| rng.usize_below(pool.len())).collect();
+            let nums = gen::supported_numbers();
+            let mut hist: Vec<usize> = (0..len).map(|_| if rng.chance(1, 8) { gen_op(*rng.pick(nums), rng.u32()) } else { rng.usize_below(pool.len()) }).collect();
             // bias: end the history with a long or a failing build
             match rng.below(4) {
-                0 if !long.is_empty() => *hist.last_mut().unwrap() = *rng.pick(&long),
+                0 if !long.is_empty() && *hist.last().unwrap() < GEN_BASE => *hist.last_mut().unwrap() = *rng.pick(&long),
                 1 if !failing.is_empty() => *hist.last_mut().unwrap() = *rng.pick(&failing),
                 _ => {}
             }
@@ -269,14 +300,21 @@ pub fn run(p: &Params) -> Outcome {
 
 pub fn replay(_p: &Params, v: &Value) -> Outcome {
     let mut ctx = Ctx::new(0);
-    let msgs: Vec<Message> = v["messages"].as_array().map(|a| a.iter().filter_map(|j| vtree::json_to_v(j).and_then(|t| vtree::from_v::<Message>(&t).ok())).collect()).unwrap_or_default();
-    if msgs.is_empty() {
-        ctx.inconclusive("empty history".into());
-    } else {
-        let pool: Vec<Entry> = msgs.into_iter().filter_map(|m| build(&m).ok().map(|fresh| Entry { msg: m, fresh, label: "replay" })).collect();
-        let n = pool.len();
-        let hist: Vec<usize> = (0..n - 1).collect();
-        run_history(&mut ctx, &pool, &hist, n - 1);
+    let mut pool: Vec<Entry> = Vec::new();
+    let mut hist: Vec<usize> = Vec::new();
+    for j in v["messages"].as_array().cloned().unwrap_or_default() {
+        if let Some(g) = j.get("generated") {
+            hist.push(gen_op(g[0].as_u64().unwrap_or(1005) as u16, g[1].as_u64().unwrap_or(0) as u32));
+        } else if let Some(m) = vtree::json_to_v(&j).and_then(|t| vtree::from_v::<Message>(&t).ok()) {
+            if let Ok(fresh) = build(&m) {
+                pool.push(Entry { msg: m, fresh, label: "replay" });
+                hist.push(pool.len() - 1);
+            }
+        }
+    }
+    match hist.pop() {
+        Some(target) if target < GEN_BASE => run_history(&mut ctx, &pool, &hist, target),
+        _ => ctx.inconclusive("empty history".into()),
     }
     Outcome { ctx, rule: "replay of one recorded history".into(), exhaustive: false, extra: json!({}) }
 }
